@@ -627,7 +627,30 @@ class CCodeGenerator:
         test_value = self.gen_expr(stmt.expression, rvalue=True)
         switch_ir_typ = self.get_ir_type(stmt.expression.typ)
         for option, target_block in self.switch_options.items():
-            if option != "default":
+            if isinstance(option, tuple):
+                # A range of values: lower <= value && value <= upper
+                lower, upper = option
+                lower = self.builder.emit_const(lower, switch_ir_typ)
+                upper_test_block = self.builder.new_block()
+                next_test_block = self.builder.new_block()
+                self.emit(
+                    ir.CJump(
+                        test_value,
+                        ">=",
+                        lower,
+                        upper_test_block,
+                        next_test_block,
+                    )
+                )
+                self.builder.set_block(upper_test_block)
+                upper = self.builder.emit_const(upper, switch_ir_typ)
+                self.emit(
+                    ir.CJump(
+                        test_value, "<=", upper, target_block, next_test_block
+                    )
+                )
+                self.builder.set_block(next_test_block)
+            elif option != "default":
                 option = self.builder.emit_const(option, switch_ir_typ)
                 next_test_block = self.builder.new_block()
                 self.emit(
@@ -745,13 +768,17 @@ class CCodeGenerator:
         """Generate code for range case label inside a switch statement"""
         block = self.builder.new_block()
         assert self.switch_options is not None
-        # TODO: This could lead to a very big if-then-else chain?
+        # The range is tested with two comparisons (see gen_switch), the
+        # semantics have checked that it does not overlap other labels.
         value1 = self.context.eval_expr(stmt.value1)
         value2 = self.context.eval_expr(stmt.value2)
-        for value in range(value1, value2 + 1):
-            if value in self.switch_options:
-                self.error("Case defined multiple times", stmt.location)
-            self.switch_options[value] = block
+        if value1 == value2:
+            option = value1
+        else:
+            option = (value1, value2)
+        if option in self.switch_options:
+            self.error("Case defined multiple times", stmt.location)
+        self.switch_options[option] = block
 
         self.builder.emit_jump(block)  # fall through
         self.builder.set_block(block)
